@@ -299,6 +299,8 @@ impl<T> MutexIsh<T> {
         #[cfg(unimock_verif)]
         let _verif_scope = crate::verif::LockScope::enter(self as *const Self as usize);
         let mut lock = self.inner.lock().unwrap();
+        #[cfg(unimock_verif)]
+        crate::verif::yield_point(crate::verif::Op::LockHeld, self as *const Self as usize);
         func(&mut *lock)
     }
 }
@@ -315,6 +317,8 @@ impl<T> MutexIsh<T> {
         #[cfg(unimock_verif)]
         let _verif_scope = crate::verif::LockScope::enter(self as *const Self as usize);
         let mut lock = self.inner.lock();
+        #[cfg(unimock_verif)]
+        crate::verif::yield_point(crate::verif::Op::LockHeld, self as *const Self as usize);
         func(&mut *lock)
     }
 }
